@@ -315,6 +315,42 @@ def D21():
     return steps != ['access', 'connect'], f'two entry points on one asset in the .sCAD file -> serialised entry steps {steps}'
 
 
+def D24():
+    lg, lcf, m, h1, h2, apps = base()
+    m2 = Model('m2', lcf)
+    a = lcf.ns.Host(name='a'); m2.add_asset(a)
+    l = lcf.ns.Link(); l.prv = [a]; l.nxt = [a]; m2.add_association(l)       # self-link a -> a
+    nxt = [str(x.name) for x in m2.get_associated_assets_by_field_name(a, 'nxt')]
+    prv = [str(x.name) for x in m2.get_associated_assets_by_field_name(a, 'prv')]
+    return not (sorted(set(nxt)) == ['a'] and sorted(set(prv)) == ['a']), \
+        f'self-link a.prv=[a], a.nxt=[a]: neighbours via nxt={nxt}, via prv={prv} (both must contain a)'
+
+
+def D26():
+    lg, lcf, m, h1, h2, apps = base()
+    res = []
+    for shape in ('prv=[a] nxt=[a]', 'prv=[a,b] nxt=[a,c]'):
+        m2 = Model('m2', lcf)
+        a = lcf.ns.Host(name='a'); b = lcf.ns.Host(name='b'); c = lcf.ns.Host(name='c')
+        for x in (a, b, c):
+            m2.add_asset(x)
+        l = lcf.ns.Link()
+        if shape.startswith('prv=[a] '):
+            l.prv = [a]; l.nxt = [a]
+        else:
+            l.prv = [a, b]; l.nxt = [a, c]
+        m2.add_association(l)
+        try:
+            m2.remove_asset(a)
+            ok = a not in m2.assets and all(a not in getattr(x, k) for x in m2.associations for k in x._properties)
+            res.append(f'{shape}: removed={ok}')
+            if not ok:
+                return True, '; '.join(res)
+        except LookupError as e:
+            return True, f'{shape}: remove_asset raised LookupError ({e}); asset still in model: {a in m2.assets}, associations left: {len(m2.associations)}'
+    return False, '; '.join(res)
+
+
 if __name__ == '__main__':
     ids = sys.argv[1:] or sorted((k for k in globals() if k[0] == 'D' and k[1:].isdigit()),
                                  key=lambda s: int(s[1:]))
